@@ -92,4 +92,58 @@ Definition find_epsilon (f : T -> T) (a b precision : T) : T :=
   let fc := f c in
   let S := (h / #6) * (fa + #4 * fc + fb) in
   precision * S.
+
+(** Integrate(func, a, b, epsilon): the declaration gives maxRecursionDepth the default value 20
+    (include/libphysica/Integration.hpp: [int maxRecursionDepth = 20]). *)
+Definition integrate_default (f : T -> T) (a b eps : T) : T * bool * list T :=
+  integrate f a b eps 20%Z.
+
+(** double Integrate(func, a, b, const std::string& method, int method_parameter) with method = "Adaptive-Simpson"
+<<
+	double sign = 1.0;
+	if(a == b) return 0.0;
+	else Check_Integration_Limits(a, b, sign);
+	...
+	else if(method == "Adaptive-Simpson")
+	{	double eps = Find_Epsilon(func, a, b, 1e-9);
+		return sign * Integrate(func, a, b, eps);	}
+>>
+    The trace lists the three evaluations of Find_Epsilon (a, b, midpoint) followed by those of Integrate. *)
+Definition integrate_method (f : T -> T) (a b : T) : T * bool * list T :=
+  if neqb Ops a b then (n0 Ops, false, [])
+  else
+    let swap := ngtb Ops a b in
+    let a' := if swap then b else a in
+    let b' := if swap then a else b in
+    let sign := if swap then nneg Ops (n1 Ops) else n1 Ops in
+    let eps := find_epsilon f a' b' (ndec Ops 1 1000000000) in
+    let '(v, w, t) := integrate_default f a' b' eps in
+    (sign * v, w, a' :: b' :: (a' + b') / #2 :: t).
+
+(** ** Sequences of calls in one process.
+    Section 1.1 of Integration.cpp has no file-scope or function-scope static and the functions take the integrand
+    by value: nothing survives a call.  In the [step : state -> op -> state * out] form of the guide the state is
+    [unit]; the differential check runs whole sequences through the library in one process and compares every
+    answer with [run_seq], i.e. with the answer of the same call made alone. *)
+Inductive call : Type :=
+| CInt  (f : T -> T) (a b eps : T) (depth : Z)     (* Integrate(f,a,b,eps,depth) *)
+| CDef  (f : T -> T) (a b eps : T)                 (* Integrate(f,a,b,eps) *)
+| CMeth (f : T -> T) (a b : T)                     (* Integrate(f,a,b,"Adaptive-Simpson") *)
+| CFind (f : T -> T) (a b precision : T).          (* Find_Epsilon(f,a,b,precision) *)
+
+Definition run_call (c : call) : T * bool * list T :=
+  match c with
+  | CInt f a b eps depth => integrate f a b eps depth
+  | CDef f a b eps => integrate_default f a b eps
+  | CMeth f a b => integrate_method f a b
+  | CFind f a b p => (find_epsilon f a b p, false, [a; b; (a + b) / #2])
+  end.
+
+Definition step (st : unit) (c : call) : unit * (T * bool * list T) := (st, run_call c).
+
+Fixpoint run_seq (st : unit) (cs : list call) : list (T * bool * list T) :=
+  match cs with
+  | [] => []
+  | c :: r => let '(st', o) := step st c in o :: run_seq st' r
+  end.
 End Model.
